@@ -57,9 +57,9 @@ static inline int sv_dirty(sv_t v, unsigned long lo, unsigned long hi)
 
 static inline int post_verif_sv_default(sv_t ret) { return SV_LEN(ret) == 0UL; }
 
-/* std::vector<T>(n): n value-initialised elements; beyond the capacity the object must at least stay inside its invariant */
+/* std::vector<T>(n): n value-initialised elements; beyond the capacity the request is REFUSED like resize(n): the vector stays empty */
 static inline int post_verif_sv_sized(unsigned long n, sv_t ret)
-{ return sv_inv(ret) && IMPLIES(n <= CAP, SV_LEN(ret) == n && IMPLIES(G_IN(n), SV_AT(ret, g) == 0UL)); }
+{ return sv_inv(ret) && IMPLIES(n <= CAP, SV_LEN(ret) == n && IMPLIES(G_IN(n), SV_AT(ret, g) == 0UL)) && IMPLIES(n > CAP, SV_LEN(ret) == 0UL); }
 
 static inline int post_verif_sv_variadic(unsigned long a, unsigned long b, unsigned long c3, sv_t ret)
 { return SV_LEN(ret) == 3UL && SV_AT(ret, 0) == a && SV_AT(ret, 1) == b && SV_AT(ret, 2) == c3; }
@@ -255,6 +255,7 @@ static inline int pre_verif_vec_resize(unsigned long n, unsigned long m, unsigne
 static inline int post_verif_vec_resize(unsigned long n, unsigned long m, unsigned long i, unsigned long x, vecp_t ret) { return ret.size == m && ret.at_i == x; }
 static inline int pre_verif_vec_resize_fill(unsigned long n, unsigned long m, unsigned long i) { return n >= 1UL && n <= VEC_MAX && m <= VEC_MAX && GHOST_DEF(g, i); }
 static inline int post_verif_vec_resize_fill(unsigned long n, unsigned long m, unsigned long i, unsigned long ret) { return ret == 0UL; }
+static inline int pre_verif_vec_shrink_grow(unsigned long x) { return GHOST_DEF(g, 1UL) && GHOST_DEF(vg, x); }
 static inline int post_verif_vec_shrink_grow(unsigned long x, unsigned long ret) { return ret == 0UL; }
 static inline int pre_verif_vec_resize_push(unsigned long n, unsigned long m, unsigned long x, unsigned long y, unsigned long i) { return n >= 1UL && n <= VEC_MAX && m < VEC_MAX && GHOST_DEF(g, i) && GHOST_DEF(vg, x); }
 static inline int post_verif_vec_resize_push(unsigned long n, unsigned long m, unsigned long x, unsigned long y, unsigned long i, vecp_t ret) { return ret.size == m + 1UL && ret.at_i == x && ret.size2 == y; }
@@ -270,7 +271,8 @@ static inline int post_verif_vec_self_assign(unsigned long n, unsigned long i, u
  * buffer_size_ elements that nothing else points into.  In a precondition the last conjunct is `is_fresh`; in a postcondition it
  * is "the same block and capacity as before, or a fresh block of the new capacity" (and the old block was freed, stated per
  * operation).  Abstract view: the elements [0,size_) -- observed at the ghost position g, whose pre-state value is bound to vg.
- * buffer_size_ >= 1 excludes exactly the state produced by vector(size_type 0), see known_findings.json. */
+ * buffer_size_ >= 1 excludes exactly the state produced by vector(size_type 0) (a zero-byte block; released by the destructor,
+ * covered by the scenario units vec.sized / vec.zero_push under the leak check). */
 #ifndef VERIF_NATIVE
 #define VEC_FIELDS_OK(v) ((v)->buffer_size_ >= 1UL && (v)->buffer_size_ <= VEC_MAX && (v)->size_ <= (v)->buffer_size_)
 #define VEC_INV_PRE(v)   (VEC_FIELDS_OK(v) && __CPROVER_is_fresh((v)->buffer_, (v)->buffer_size_ * 8UL))
@@ -281,7 +283,7 @@ static inline int post_verif_vec_self_assign(unsigned long n, unsigned long i, u
 #endif
 static inline int post_verif_vec_zero_push(unsigned long x, vecp_t ret) { return ret.size == 1UL && ret.at_i == x; }
 static inline int post_verif_vec_variadic(unsigned long a, unsigned long b, unsigned long c3, vecp_t ret) { return ret.size == 3UL && ret.at_i == a && ret.size2 == b && ret.at2_i == c3; }
-static inline int pre_verif_vec_push_alias(unsigned long k, unsigned long x) { return k >= 1UL && k <= 6UL; }
+static inline int pre_verif_vec_push_alias(unsigned long k, unsigned long x) { return k >= 1UL && k <= 6UL && GHOST_DEF(g, 0UL) && GHOST_DEF(vg, x); }
 static inline int post_verif_vec_push_alias(unsigned long k, unsigned long x, vecp_t ret) { return ret.size == k + 1UL && ret.at_i == x && ret.size2 == x; }
 
 /* --------------------------------------------------------------- utl::maybe<utl::vector<size_t>>  ~  std::optional<std::vector<size_t>> */
